@@ -296,6 +296,29 @@ def select(db, f, e, ev, depth=0):
         if v is False:
             return select(db, f, e["else"], ev, depth + 1)
         return e
+    if k == "Match" and e.get("src") == "Normal":
+        # first-match semantics over arms whose pattern the evaluator can decide
+        for a in e["arms"]:
+            pv = ev(("arm", e["scrut"], a["pat"]))
+            if (a.get("pat") or {}).get("k") == "Wild" and pv is None:
+                pv = True
+            gv = eval3(a["guard"], ev) if "guard" in a else True
+            if pv is False or gv is False:
+                continue
+            if pv is True and gv is True:
+                return select(db, f, a["body"], ev, depth + 1)
+            return e
+        return e
+    if k == "MethodCall" and e.get("method") in ("unwrap_or", "unwrap_or_else", "unwrap_or_default", "map_or", "map_or_else") and e.get("args") is not None:
+        r = peel(select(db, f, e["recv"], ev, depth + 1))
+        if isinstance(r, dict) and r.get("k") == "Path" and path_ends(r.get("path") or "", ("Option::None", "None")) and e["args"]:
+            d = peel(e["args"][0])
+            if e["method"] in ("unwrap_or_else", "map_or_else") and d.get("k") == "Closure":
+                return select(db, f, d["body"], ev, depth + 1)
+            return select(db, f, d, ev, depth + 1)
+        if isinstance(r, dict) and r.get("k") == "Call" and path_ends(r.get("callee") or "", ("Option::Some", "Some")) and e["method"].startswith("unwrap_or") and r.get("args"):
+            return select(db, f, r["args"][0], ev, depth + 1)
+        return e
     if k == "Block":
         # an early helper-return under a decided condition wins over the tail
         for st in e.get("stmts", []):
